@@ -235,11 +235,11 @@ func escStr(r *Rng, s string, forKey bool) string {
 
 type kv struct{ k, v string }
 
-var sampleIPs = []string{"10.1.2.3", "192.168.0.1", "0.0.0.0", "255.255.255.255", "2001:db8::1", "::1", "::ffff:10.9.8.7", "::", "fe80::1%eth0", "1.2.3", "256.1.1.1", "", "localhost", "1.2.3.4 ", "01.2.3.4", "::ffff:0:0"}
-var sampleRemotes = []string{"10.1.2.3:4000", "[2001:db8::9]:4000", "[::ffff:10.7.7.7]:1", "127.0.0.1:80", "[::1]:443", "10.1.2.3", "", "[::1]", "host:1", ":80", "1.2.3.4:5:6"}
+var sampleIPs = []string{"2001:db8::ffff:c000:201", "1::ffff:10.0.0.1", "::fffe:10.0.0.1", "64:ff9b::10.0.0.1", "10.1.2.3", "192.168.0.1", "0.0.0.0", "255.255.255.255", "2001:db8::1", "::1", "::ffff:10.9.8.7", "::", "fe80::1%eth0", "1.2.3", "256.1.1.1", "", "localhost", "1.2.3.4 ", "01.2.3.4", "::ffff:0:0"}
+var sampleRemotes = []string{"10.1.2.3:4000", "[2001:db8::9]:4000", "[::ffff:10.7.7.7]:1", "[2001:db8::ffff:c000:201]:7", "[::fffe:10.0.0.1]:7", "[1::ffff:10.0.0.1]:9", "127.0.0.1:80", "[::1]:443", "10.1.2.3", "", "[::1]", "host:1", ":80", "1.2.3.4:5:6"}
 
 func randCase(r *Rng) httpCase {
-	hc := httpCase{spoof: r.Intn(3) == 0, remoteAddr: sampleRemotes[r.Intn(3)], maxnw: 100, defnw: 50, maxsc: 50}
+	hc := httpCase{spoof: r.Intn(3) == 0, remoteAddr: sampleRemotes[r.Intn(6)], maxnw: 100, defnw: 50, maxsc: 50}
 	if r.Intn(4) == 0 {
 		hc.remoteAddr = sampleRemotes[r.Intn(len(sampleRemotes))]
 	}
